@@ -120,10 +120,7 @@ type Run struct {
 
 	done bool
 
-	onSpawn func(parent, child *Task)
-	onSend  func(ch any)
-	onRecv  func(ch any)
-	onClose func(ch any)
+	race *raceState
 	// lock observers (level 2)
 	OnAcquire func(t *Task, m any)
 	OnRelease func(t *Task, m any)
@@ -501,9 +498,7 @@ func Go(site string, fn func()) {
 	t := &Task{ID: pid, SpawnSite: site, Class: classOf(site), wake: make(chan struct{}), state: tStarting}
 	r.tasks = append(r.tasks, t)
 	r.mu.Unlock()
-	if obs := r.onSpawn; obs != nil {
-		obs(p, t)
-	}
+	r.raceSpawn(p, t)
 	go r.body(t, fn)
 }
 
@@ -523,13 +518,11 @@ func WrapGoErr(site string, fn func() error) func() error {
 	t := &Task{ID: pid, SpawnSite: site, Class: classOf(site), wake: make(chan struct{}), state: tStarting}
 	r.tasks = append(r.tasks, t)
 	r.mu.Unlock()
-	if obs := r.onSpawn; obs != nil {
-		obs(p, t)
-	}
+	r.raceSpawn(p, t)
 	return func() (err error) {
 		// runs on the goroutine started inside errgroup; a panic must not kill the
 		// process, so body() recovers; errgroup's own bookkeeping (done/Wait) still runs.
-		r.body(t, func() { err = fn() })
+		r.body(t, func() { err = fn(); r.raceEgEnd(t) })
 		if t.Panic != nil && err == nil {
 			err = fmt.Errorf("panic in errgroup goroutine: %v", t.Panic)
 		}
@@ -611,30 +604,30 @@ func Recv2[T any, C interface{ ~chan T | ~<-chan T }](ch C, site string) (T, boo
 // Close replaces close(ch).
 func Close[T any, C interface{ ~chan T | ~chan<- T }](ch C, site string) {
 	Pre(site)
-	if r := active(); r != nil && r.onClose != nil {
-		r.onClose(any(ch))
+	if r := active(); r != nil {
+		r.raceSend(any(ch))
 	}
 	close((chan<- T)(ch))
 	Post(site)
 }
 
 func noteRecv(ch any, site string) {
-	if r := active(); r != nil && r.onRecv != nil {
-		r.onRecv(ch)
+	if r := active(); r != nil {
+		r.raceRecv(ch)
 	}
 }
 
 // NoteSend is called right before a send statement executes (level 2 only).
 func NoteSend(ch any) {
-	if r := active(); r != nil && r.onSend != nil {
-		r.onSend(ch)
+	if r := active(); r != nil {
+		r.raceSend(ch)
 	}
 }
 
 // NoteRecv is called right after a receive in a select clause (level 2 only).
 func NoteRecv(ch any) {
-	if r := active(); r != nil && r.onRecv != nil {
-		r.onRecv(ch)
+	if r := active(); r != nil {
+		r.raceRecv(ch)
 	}
 }
 
@@ -642,12 +635,6 @@ func NoteRecv(ch any) {
 
 // SleepFake advances the bubble's fake clock (call from the scheduler goroutine only).
 func SleepFake(d time.Duration) { time.Sleep(d) }
-
-// ---- observers for the race detector (set by package users) ---------------------
-
-func (r *Run) SetObservers(onSpawn func(parent, child *Task), onSend, onRecv, onClose func(ch any)) {
-	r.onSpawn, r.onSend, r.onRecv, r.onClose = onSpawn, onSend, onRecv, onClose
-}
 
 // CurrentTask returns the task executing the caller (or nil outside a run).
 func CurrentTask() *Task {
@@ -667,6 +654,9 @@ func Wait0[F func() | func() error](site string, f F) {
 	case func() error:
 		_ = g()
 	}
+	if r := active(); r != nil {
+		r.raceWaited(false)
+	}
 	Post(site)
 }
 
@@ -674,6 +664,9 @@ func Wait0[F func() | func() error](site string, f F) {
 func WaitErr(site string, f func() error) error {
 	Pre(site)
 	err := f()
+	if r := active(); r != nil {
+		r.raceWaited(true)
+	}
 	Post(site)
 	return err
 }
